@@ -236,6 +236,50 @@ def h_nan(eng):
         arr = Qy(np.array([nan, 1.0, 0.0]), unit)
         P(list(arr == arr) == list(arr == copy.copy(arr)) == [False, True, True], f"same-object-as-equal-copy-array:{unit}")
         P(list(arr != arr) == [True, False, False], f"same-object-ne-array:{unit}")
+    # array magnitudes: every comparison is the element-wise scalar comparison (no whole-array
+    # shortcut decides for single elements), also against a scalar quantity
+    vals = [0.0, 5.0, -1.0, 0.05, 500.0]
+    for ua, ub in (("meter", "centimeter"), ("meter", "meter"), ("centimeter", "meter"), ("second", "millisecond"), ("meter", "second"), ("percent", ""), ("radian", "degree")):
+        for av in ([0.0, 0.0], [0.0, 5.0], [5.0, 0.0], [0.05, 5.0], [0.0, 0.0, 0.0]):
+            for bv in ([0.0, 5.0], [0.0, 0.0], [500.0, 0.0], [5.0, 500.0], [0.0, 5.0, 500.0]):
+                if len(av) != len(bv):
+                    continue
+                A, B = Qy(np.array(av), ua), Qy(np.array(bv), ub)
+                want = [bool(Qy(x_, ua) == Qy(y_, ub)) for x_, y_ in zip(av, bv)]
+                got = A == B
+                P(hasattr(got, "__len__") and list(got) == want, f"array-eq-elementwise:{ua},{ub}:{av}=={bv}")
+                gotn = A != B
+                P(hasattr(gotn, "__len__") and list(gotn) == [not w for w in want], f"array-ne-elementwise:{ua},{ub}:{av}!={bv}")
+                if A.dimensionality == B.dimensionality:
+                    P(list(A < B) == [bool(Qy(x_, ua) < Qy(y_, ub)) for x_, y_ in zip(av, bv)], f"array-lt-elementwise:{ua},{ub}:{av}<{bv}")
+            for sv in vals[:3]:
+                got = Qy(sv, ua) == Qy(np.array([0.0, 5.0, 500.0]), ub)
+                want = [bool(Qy(sv, ua) == Qy(y_, ub)) for y_ in (0.0, 5.0, 500.0)]
+                # (across dimensions one False for the whole comparison is as good as an array of them)
+                same_answer = lambda g: (list(g) == want) if hasattr(g, "__len__") else all(w == bool(g) for w in want)  # noqa: E731
+                P(same_answer(got), f"scalar-vs-array-eq:{ua},{ub}:{sv}")
+                got = Qy(np.array([0.0, 5.0, 500.0]), ub) == Qy(sv, ua)
+                P(same_answer(got), f"array-vs-scalar-eq:{ub},{ua}:{sv}")
+    # an active context that relates two dimensions changes what converts, not what is comparable:
+    # ordering across dimensions still raises, == is still False
+    for ctx in ("sp", "boltzmann", "energy"):
+        with ureg.context(ctx):
+            for qa, qb in ((Qy(1.0, "meter"), Qy(2.0, "hertz")), (Qy(1.0, "nanometer"), Qy(2.0, "joule")), (Qy(1.0, "kelvin"), Qy(2.0, "joule")), (Qy(1.0, "gram"), Qy(1.0, "joule"))):
+                for name, op in (("lt", operator.lt), ("le", operator.le), ("gt", operator.gt), ("ge", operator.ge)):
+                    try:
+                        op(qa, qb)
+                    except DimensionalityError:
+                        P(True, f"context:{ctx}:{name}:cross-dimension-raises:{qa.units},{qb.units}")
+                    else:
+                        eng.fail(f"context:{ctx}:{name}:cross-dimension-ordered:{qa.units},{qb.units}", stop=False)
+                    try:
+                        op(qa.units, qb.units)
+                    except DimensionalityError:
+                        P(True, f"context:{ctx}:{name}:unit-cross-dimension-raises:{qa.units},{qb.units}")
+                    else:
+                        eng.fail(f"context:{ctx}:{name}:unit-cross-dimension-ordered:{qa.units},{qb.units}", stop=False)
+                P(bool(qa == qb) is False and bool(qa != qb) is True, f"context:{ctx}:eq-false:{qa.units},{qb.units}")
+            P(bool(Qy(1.0, "meter") < Qy(200.0, "centimeter")) and bool(Qy(1.0, "inch") == Qy(2.54, "centimeter")), f"context:{ctx}:same-dimension-as-usual")
     P(Qy(inf_, "meter") > Qy(1e300, "kilometer") and Qy(-inf_, "meter") < Qy(-1e300, "kilometer"), "inf:orders-beyond-everything")
     P(Qy(inf_, "meter") == Qy(inf_, "centimeter") and not (Qy(inf_, "meter") == Qy(-inf_, "meter")), "inf:equality")
     P(hash(Qy(inf_, "meter")) == hash(Qy(inf_, "centimeter")), "inf:hash")
